@@ -64,6 +64,14 @@ def run_scenario(cfg, chooser, max_steps=20000):
 
     async def main():
         ch = prebuilt[0] if prebuilt else AsyncChannel(buffer_limit=cfg.get("buffer", 0))
+        # bystanders: receivers blocked on ANOTHER channel of the same process for the whole scenario (what one channel
+        # knows about its waiting receivers is its own business)
+        other, bystanders = None, []
+        if cfg.get("bystanders"):
+            other = AsyncChannel()
+            for j in range(cfg["bystanders"]):
+                bystanders.append(asyncio.ensure_future(other.receive() if j % 2 == 0 else other.__anext__()))
+            await asyncio.sleep(0)
         sender_items = []
         n = 0
         for s in cfg["senders"]:
@@ -212,6 +220,13 @@ def run_scenario(cfg, chooser, max_steps=20000):
         for t in rx_tasks:
             if t.done() and not t.cancelled() and t.exception() is not None:
                 rx_exc.append(f"{type(t.exception()).__name__}: {t.exception()}")
+        if other is not None:
+            still = [t for t in bystanders if not t.done()]
+            if len(still) != len(bystanders):
+                rx_exc.append(f"bystander receivers on another channel ended during the scenario: {len(bystanders) - len(still)} of {len(bystanders)}")
+            other.close()
+            for t in bystanders:
+                t.cancel()
         return all_items, sender_items, q1, q2, later, drained, rx_exc
 
     out = []
@@ -410,6 +425,8 @@ def cfg_class(cfg):
         parts.append("falsy_items")
     if cfg.get("prebuilt"):
         parts.append("built_before_the_loop")
+    if cfg.get("bystanders"):
+        parts.append("bystanders_on_another_channel")
     return "|".join(parts)
 
 
@@ -430,6 +447,9 @@ SMALL_CONFIGS = [
     {"name": "timeout_then_items", "senders": [{"items": 2, "mode": "send", "delay": 7}], "receivers": [{"mode": "receive", "timeout": 5}, {"mode": "receive"}], "closer_vdelay": 10},
     {"name": "2s1i_1rx", "senders": [{"items": 1, "mode": "send"}, {"items": 1, "mode": "send"}], "receivers": [{"mode": "receive"}]},
     {"name": "prebuilt_1s1i_2rx", "senders": [{"items": 1, "mode": "send"}], "receivers": [{"mode": "receive"}, {"mode": "iter"}], "prebuilt": True},
+    {"name": "bystander1_1s2i_1rx", "senders": [{"items": 2, "mode": "send"}], "receivers": [{"mode": "receive"}], "bystanders": 1},
+    {"name": "bystander2_1s2i_no_rx_until_closed", "senders": [{"items": 2, "mode": "send"}], "receivers": [], "bystanders": 2},
+    {"name": "bystander3_2s1i_no_rx_until_closed_bounded2", "senders": [{"items": 1, "mode": "send"}, {"items": 1, "mode": "send"}], "receivers": [], "buffer": 2, "bystanders": 3},
     {"name": "prebuilt_bounded1_sendfrom_close_2rx", "senders": [{"items": 2, "mode": "send_from_close"}], "receivers": [{"mode": "iter"}, {"mode": "receive"}], "buffer": 1, "prebuilt": True},
 ]
 THOROUGH_CONFIGS = [
@@ -512,6 +532,8 @@ def targets(ctx):
             cfg["falsy_items"] = True
         if draw(st.integers(0, 3)) == 0:
             cfg["prebuilt"] = True
+        if draw(st.integers(0, 3)) == 0:
+            cfg["bystanders"] = draw(st.integers(1, 3))
         if draw(st.integers(0, 2)) == 0:
             cfg["cancel"] = {"target": draw(st.integers(0, nr - 1)), "delay": draw(st.integers(0, 4))}
         return {"cfg": cfg, "choices": draw(st.lists(st.integers(0, 5), max_size=60))}
